@@ -48,7 +48,7 @@ def _call(proj: Project, name: str, *args):
     cls = proj.cls(MOD, "PairwiseBasedAlgorithm")
     f = proj.method(cls, name)
     try:
-        return f, _runtime(proj).call_static(cls, name, *args)
+        return f, _runtime(proj).call_static(cls, f.name, *args)
     except Unsupported as exc:
         raise AnalysisError(f"{f.qualname}: unsupported construct line {getattr(exc.node, 'lineno', '?')}: {exc}")
 
